@@ -183,3 +183,182 @@ Qed.
 
 Lemma pend_inv_init ka T n : pend_inv (init ka T n).
 Proof. split; cbn; constructor. Qed.
+
+(* ------------------------------------------------------------------ an accepted open stays in
+   flight until it is answered or its connection is reported closed *)
+Lemma pfind_filter (f : N * key -> bool) id l k :
+  pfind id l = Some k -> f (id, k) = true -> pfind id (filter f l) = Some k.
+Proof.
+  induction l as [|[i k0] t IH]; cbn [pfind filter]; [discriminate|].
+  destruct (i =? id) eqn:E.
+  - intros H Hf. inversion H; subst k0. apply N.eqb_eq in E. subst i. rewrite Hf. cbn [pfind].
+    rewrite N.eqb_refl. reflexivity.
+  - intros H Hf. destruct (f (i, k0)); [cbn [pfind]; rewrite E|]; auto.
+Qed.
+Lemma pfind_app_l id l x k : pfind id l = Some k -> pfind id (l ++ x) = Some k.
+Proof.
+  induction l as [|[i k0] t IH]; cbn [pfind app]; [discriminate|].
+  destruct (i =? id); auto.
+Qed.
+Lemma pfind_app_new id l k : ~ In id (map fst l) -> pfind id (l ++ [(id, k)]) = Some k.
+Proof.
+  induction l as [|[i k0] t IH]; cbn [pfind app map fst]; intros H.
+  - rewrite N.eqb_refl. reflexivity.
+  - destruct (i =? id) eqn:E; [apply N.eqb_eq in E; exfalso; apply H; left; exact E|].
+    apply IH. intros C. apply H. right; exact C.
+Qed.
+
+Lemma handle_inflight s e id k :
+  pfind id (s_pend s) = Some k ->
+  pfind id (s_pend (fst (handle_ev s e))) = Some k \/ In id (ans_ids (snd (handle_ev s e))) \/
+  exists p, e = EClosed p (snd k).
+Proof.
+  intros PF. destruct e; cbn [handle_ev].
+  - left; exact PF.
+  - left. unfold on_established. dmatch; cbn [fst]; st_simpl;
+      rewrite ?activity_pend; st_simpl; rewrite ?add_chan_pend; exact PF.
+  - destruct (snd k =? c) eqn:E.
+    + right; right. apply N.eqb_eq in E. subst c. eauto.
+    + left. unfold on_closed. st_simpl.
+      assert (G : pfind id (filter (fun x : N * key => negb (snd (snd x) =? c)) (s_pend s)) = Some k).
+      { apply pfind_filter; [exact PF|]. cbn [snd]. rewrite E. reflexivity. }
+      dmatch; cbn [fst]; st_simpl; exact G.
+  - left. destruct (0 <? strong s c); cbn [fst]; [|exact PF].
+    rewrite (proj2 (sub_opened_view s p c m)). exact PF.
+  - destruct (pfind id0 (s_pend s)) as [[p c]|] eqn:F; cbn [fst snd]; [|left; exact PF].
+    destruct (id0 =? id) eqn:E.
+    + apply N.eqb_eq in E. subst id0. right; left. cbn. left; reflexivity.
+    + left. rewrite (proj2 (sub_opened_view _ p c m)). st_simpl. unfold pdel.
+      apply pfind_filter; [exact PF|]. cbn [fst]. rewrite N.eqb_sym, E. reflexivity.
+  - cbn [fst snd]. st_simpl. destruct (id0 =? id) eqn:E.
+    + apply N.eqb_eq in E. subst id0. right; left. rewrite PF. cbn. left; reflexivity.
+    + left. unfold pdel. apply pfind_filter; [exact PF|]. cbn [fst]. rewrite N.eqb_sym, E. reflexivity.
+  - left; exact PF.
+  - left. unfold on_open. dmatch; cbn [fst]; st_simpl; rewrite ?activity_pend; st_simpl;
+      try exact PF; apply pfind_app_l; exact PF.
+  - left. dmatch; cbn [fst]; st_simpl; exact PF.
+  - left. dmatch; cbn [fst]; st_simpl; exact PF.
+  - left. dmatch; cbn [fst]; st_simpl; exact PF.
+  - left; exact PF.
+Qed.
+
+Lemma step_pend_ans s dt e :
+  s_pend (fst (step s dt e)) = s_pend (fst (handle_ev (with_now s (s_now s + dt)) e)) /\
+  ans_ids (snd (step s dt e)) = ans_ids (snd (handle_ev (with_now s (s_now s + dt)) e)).
+Proof.
+  unfold step. set (s0 := with_now s (s_now s + dt)).
+  destruct (handle_ev s0 e) as [s1 o1]. cbn [fst snd].
+  set (sm := match ka_activity_of s0 e with
+             | Some k => with_act s1 (kset k (s_now s1) (s_act s1)) | None => s1 end).
+  assert (M2 : s_pend sm = s_pend s1) by (subst sm; destruct (ka_activity_of s0 e); reflexivity).
+  pose proof (poll_consts sm) as PC. pose proof (poll_outs_down sm) as PD.
+  destruct (poll_timers sm) as [s2 o2]. cbn [fst snd] in *.
+  destruct PC as [_ [_ [_ [_ [_ [PP _]]]]]].
+  assert (A2 : ans_ids o2 = []).
+  { apply flat_map_nil. intros x Hx. destruct (PD x Hx) as [p [c ->]]. reflexivity. }
+  split; [rewrite PP, M2; reflexivity|].
+  unfold ans_ids in *. rewrite flat_map_app, A2, app_nil_r. reflexivity.
+Qed.
+
+Lemma step_inflight s dt e id k :
+  pfind id (s_pend s) = Some k ->
+  pfind id (s_pend (fst (step s dt e))) = Some k \/ In id (ans_ids (snd (step s dt e))) \/
+  exists p, e = EClosed p (snd k).
+Proof.
+  intros PF. destruct (step_pend_ans s dt e) as [E1 E2]. rewrite E1, E2.
+  apply (handle_inflight (with_now s (s_now s + dt)) e id k). exact PF.
+Qed.
+
+Lemma inflight_resolution tr : forall s id k,
+  pfind id (s_pend s) = Some k ->
+  pfind id (s_pend (final s tr)) = Some k \/ In id (ans_ids (concat (run s tr))) \/
+  exists dt p, In (dt, EClosed p (snd k)) tr.
+Proof.
+  induction tr as [|[dt e] tr IH]; intros s id k PF; cbn [final run].
+  - left; exact PF.
+  - pose proof (step_inflight s dt e id k PF) as SI. destruct (step s dt e) as [s' os] eqn:ST.
+    cbn [fst snd concat] in *. unfold ans_ids. rewrite flat_map_app. fold (ans_ids os) (ans_ids (concat (run s' tr))).
+    destruct SI as [H|[H|[p H]]].
+    + destruct (IH s' id k H) as [G|[G|[dt' [p' G]]]].
+      * left; exact G.
+      * right; left. apply in_or_app; right; exact G.
+      * right; right. exists dt', p'. right; exact G.
+    + right; left. apply in_or_app; left; exact H.
+    + right; right. exists dt, p. left. rewrite H. reflexivity.
+Qed.
+
+(* an OpenSubstream command means: the identifier is now in flight on that connection *)
+Lemma step_accept s dt e c id :
+  pend_inv s -> In (OCmd c id) (snd (step s dt e)) ->
+  exists p, pfind id (s_pend (fst (step s dt e))) = Some (p, c).
+Proof.
+  intros [P1 P2] H. destruct (step_pend_ans s dt e) as [E1 _]. rewrite E1.
+  assert (HC : In (OCmd c id) (snd (handle_ev (with_now s (s_now s + dt)) e))).
+  { unfold step in H. destruct (handle_ev (with_now s (s_now s + dt)) e) as [s1 o1]. cbn [snd] in *.
+    set (sm := match ka_activity_of (with_now s (s_now s + dt)) e with
+               | Some k => with_act s1 (kset k (s_now s1) (s_act s1)) | None => s1 end) in *.
+    pose proof (poll_outs_down sm) as PD. destruct (poll_timers sm) as [s2 o2]. cbn [snd] in *.
+    apply in_app_or in H. destruct H as [H|H]; [exact H|]. destruct (PD _ H) as [p [c' E]]. discriminate. }
+  set (s0 := with_now s (s_now s + dt)) in *.
+  assert (Q2 : forall i, In i (map fst (s_pend s0)) -> i < s_next s0).
+  { intros i Hi. rewrite Forall_forall in P2. apply (P2 i Hi). }
+  clearbody s0. destruct e; cbn [handle_ev] in *; unfold on_established, on_closed in *;
+    try (revert HC; dmatch; cbn [snd In]; intuition discriminate).
+  unfold on_open in *. destruct (find_ctx p (s_ctxs s0)) as [cx|]; [|cbn [snd In] in HC; intuition discriminate].
+  destruct (h_act (c_prim cx) || (0 <? strong s0 (h_id (c_prim cx)))); [|cbn [snd In] in HC; intuition discriminate].
+  cbn [fst snd In] in *. destruct HC as [HC|[HC|[]]]; [discriminate|]. inversion HC; subst c id.
+  exists p. st_simpl.
+  assert (E2 : s_pend (if s_ka s0
+                       then with_ctxs (activity (with_next s0 (s_next s0 + 1)) (p, h_id (c_prim cx)))
+                              (set_ctx (mkCtx p (mkH (h_id (c_prim cx)) true) (c_sec cx))
+                                 (s_ctxs (activity (with_next s0 (s_next s0 + 1)) (p, h_id (c_prim cx)))))
+                       else with_next s0 (s_next s0 + 1)) = s_pend s0)
+    by (destruct (s_ka s0); st_simpl; rewrite ?activity_pend; reflexivity).
+  rewrite E2. apply pfind_app_new. intros C. apply Q2 in C. lia.
+Qed.
+
+Lemma pend_inv_final tr : forall s, pend_inv s -> pend_inv (final s tr).
+Proof.
+  induction tr as [|[dt e] tr IH]; intros s P; cbn [final]; [exact P|].
+  apply IH. apply (step_ans s dt e P).
+Qed.
+
+(* every accepted open ends in exactly one of: still in flight, answered, connection closed after it *)
+Lemma opened_resolution tr : forall s c id,
+  pend_inv s -> In (OCmd c id) (concat (run s tr)) ->
+  (exists p, pfind id (s_pend (final s tr)) = Some (p, c)) \/
+  In id (ans_ids (concat (run s tr))) \/
+  exists dt p, In (dt, EClosed p c) tr.
+Proof.
+  induction tr as [|[dt e] tr IH]; intros s c id P H; cbn [run final] in *; [destruct H|].
+  pose proof (step_accept s dt e c id P) as SA. pose proof (step_ans s dt e P) as [P' _].
+  destruct (step s dt e) as [s' os] eqn:ST. cbn [fst snd concat] in *.
+  unfold ans_ids. rewrite flat_map_app. fold (ans_ids os) (ans_ids (concat (run s' tr))).
+  apply in_app_or in H. destruct H as [H|H].
+  - destruct (SA H) as [p PF].
+    destruct (inflight_resolution tr s' id (p, c) PF) as [G|[G|[dt' [p' G]]]].
+    + left. exists p. exact G.
+    + right; left. apply in_or_app; right; exact G.
+    + right; right. exists dt', p'. right; exact G.
+  - destruct (IH s' c id P' H) as [G|[G|[dt' [p' G]]]].
+    + left; exact G.
+    + right; left. apply in_or_app; right; exact G.
+    + right; right. exists dt', p'. right; exact G.
+Qed.
+
+(* ... and under the environment hypothesis that nothing is left unanswered (the connection task
+   answers every command it received unless it terminates): exactly one answer, or closed *)
+Lemma open_answered tr ka T n0 c id :
+  In (OCmd c id) (concat (run (init ka T n0) tr)) ->
+  pfind id (s_pend (final (init ka T n0) tr)) = None ->
+  (count_occ N.eq_dec (ans_ids (concat (run (init ka T n0) tr))) id <= 1)%nat /\
+  (count_occ N.eq_dec (ans_ids (concat (run (init ka T n0) tr))) id = 1%nat \/
+   exists dt p, In (dt, EClosed p c) tr).
+Proof.
+  intros H NF. destruct (answers_once tr (init ka T n0) (pend_inv_init ka T n0)) as [ND _].
+  split; [apply NoDup_count_occ; exact ND|].
+  destruct (opened_resolution tr (init ka T n0) c id (pend_inv_init ka T n0) H) as [[p G]|[G|G]].
+  - congruence.
+  - left. apply NoDup_count_occ'; assumption.
+  - right; exact G.
+Qed.
